@@ -48,7 +48,8 @@ SPEC = {'id': 'C11',
          'sizes around readLimit, legacy) through the real clientOffers and ampClientOffers of an in-package broker with '
          'empty pool and with a scripted answering proxy; real Exchange of both rendezvous methods against a loopback '
          'server with a recording dialler: statuses, Location header, body/armor sizes 99 999…100 002 and beyond, '
-         'fronts, caches. non-trivial = every case except empty inputs / unparsable URLs; distinct = distinct (class, case line)',
+         'fronts, caches. non-trivial = every case except empty inputs / unparsable URLs; distinct = distinct (class, case line)'
+         ' Decoded polls are kept and re-checked after later decodes and 8 goroutines run 300 encode/decode round trips each (results are values of their own); AMP requests also arrive with RFC 3986-equivalent percent-encoded targets parsed like net/http.',
  'level_text': 'Kernel-checked theorems over models of path.go, cache.go, the broker AMP endpoint next to the POST '
                'endpoint (poll handler as a parameter function) and the client response handling: path round trip for '
                'every padding (uses: base64url output has no slash), path error classes, AMP endpoint = armor of what '
